@@ -522,7 +522,11 @@ func (s *configurationStore) getCommitted(ctx context.Context, id configapi.Conf
 }
 
 func (s *configurationStore) getApplied(ctx context.Context, id configapi.ConfigurationID) (_map.Map[string, *configapi.PathValue], error) {
-	return s.getTarget(ctx, s.applied, id)
+	// The applied values live in a primitive of their own: sharing "configurations-<id>" with the committed values
+	// lets the apply of an earlier transaction overwrite what a later transaction has committed
+	appliedID := id
+	appliedID.Target.ID = configapi.TargetID(fmt.Sprintf("%s-applied", id.Target.ID))
+	return s.getTarget(ctx, s.applied, appliedID)
 }
 
 func (s *configurationStore) store(ctx context.Context, store _map.Map[string, *configapi.PathValue], values map[string]configapi.PathValue) error {
